@@ -439,12 +439,12 @@ Section StageInvariant.
     (forall c, In c cs -> In c (o_crits o)) ->
     NoDup (map prim_name (ps ++ flat_map (expand M) cs)) ->
     exists s', run_crits M solve s cs = Ok s' /\
-      ((exists done G, J s' (ps ++ done) G /\ Refines F (map spec done) G /\
-          ((forall c, In c cs -> expand M c <> []) -> done = flat_map (expand M) cs)) \/ Bad s').
+      ((exists G, J s' (ps ++ flat_map (expand M) cs) G /\
+                  Refines F (map spec (flat_map (expand M) cs)) G) \/ Bad s').
   Proof.
     induction cs as [|c t IH]; intros solve s ps F Hok HJ Hin Hnd.
-    - exists s. cbn [run_crits]. split; [reflexivity|]. left. exists [], F. rewrite app_nil_r.
-      split; [exact HJ|]. split; [apply Refines_refl|]. intros _. reflexivity.
+    - exists s. cbn [run_crits]. split; [reflexivity|]. left. exists F. cbn [flat_map map]. rewrite app_nil_r.
+      split; [exact HJ|apply Refines_refl].
     - cbn [run_crits]. cbn [flat_map] in Hnd.
       assert (Hin1 : forall p, In p (expand M c) -> In p (all_prims M o)).
       { intros p Hp. unfold all_prims. apply in_flat_map. exists c. split; [apply Hin; left; reflexivity|exact Hp]. }
@@ -452,30 +452,36 @@ Section StageInvariant.
       { apply (NoDup_map_app_l prim_name (ps ++ expand M c) (flat_map (expand M) t)).
         rewrite <- app_assoc. exact Hnd. }
       destruct (perform_all_J (expand M c) solve (add_info s (crit_info M c)) ps F Hok
-                  (J_add_info s ps F _ HJ) Hin1 Hnd1) as [s1 [E1 [_ [Hnz [_ Hres]]]]].
+                  (J_add_info s ps F _ HJ) Hin1 Hnd1) as [s1 [E1 [Hle [_ [_ Hres]]]]].
+      cbn [add_info r_nsolves] in Hle.
       rewrite E1. cbn [bind].
       destruct Hres as [[G [HJ1 Href1]]|Hbad].
-      + destruct (J_status _ _ _ HJ1) as [[Hz Hst]|[Hnz1 [Hst HG]]].
-        * (* nothing was solved: the criterion has no stage; run_optimisations exits *)
-          assert (Es : status_eqb (r_status s1) Optimal = false) by (rewrite Hst; reflexivity).
-          rewrite Es. exists s1. split; [reflexivity|]. left. exists (expand M c), G.
-          split; [exact HJ1|]. split; [exact Href1|].
-          intros Hne. exfalso. apply Hnz; [|exact Hz]. apply Hne. left. reflexivity.
-        * rewrite (proj2 (status_eqb_Optimal _) Hst).
-          assert (Hnd2 : NoDup (map prim_name ((ps ++ expand M c) ++ flat_map (expand M) t)))
-            by (rewrite <- app_assoc; exact Hnd).
-          destruct (IH solve s1 (ps ++ expand M c) G Hok HJ1 (fun d Hd => Hin d (or_intror Hd)) Hnd2)
-            as [s' [E' Hres']].
-          exists s'. split; [exact E'|].
-          destruct Hres' as [[done [G' [HJ' [Href' Hall]]]]|Hbad'].
-          -- left. exists (expand M c ++ done), G'. rewrite <- app_assoc in HJ'. split; [exact HJ'|].
-             split.
-             ++ rewrite map_app. apply (Refines_trans F G G' _ _ Href1 Href').
-             ++ intros Hne. cbn [flat_map]. f_equal. apply Hall. intros d Hd. apply Hne. right. exact Hd.
-          -- right. exact Hbad'.
+      + (* the criterion left status Optimal, or it had no stage and nothing has been solved yet:
+           in both cases the loop continues *)
+        assert (Econt : status_eqb (r_status s1) Optimal || Nat.eqb (r_nsolves s1) (r_nsolves s) = true).
+        { destruct (J_status _ _ _ HJ1) as [[Hz Hst]|[Hnz1 [Hst HG]]].
+          - apply orb_true_iff. right. apply Nat.eqb_eq. lia.
+          - apply orb_true_iff. left. now apply status_eqb_Optimal. }
+        rewrite Econt.
+        assert (Hnd2 : NoDup (map prim_name ((ps ++ expand M c) ++ flat_map (expand M) t)))
+          by (rewrite <- app_assoc; exact Hnd).
+        destruct (IH solve s1 (ps ++ expand M c) G Hok HJ1 (fun d Hd => Hin d (or_intror Hd)) Hnd2)
+          as [s' [E' Hres']].
+        exists s'. split; [exact E'|].
+        destruct Hres' as [[G' [HJ' Href']]|Hbad'].
+        * left. exists G'. cbn [flat_map]. rewrite <- app_assoc in HJ'. split; [exact HJ'|].
+          rewrite map_app. apply (Refines_trans F G G' _ _ Href1 Href').
+        * right. exact Hbad'.
       + destruct Hbad as [Hno [Hst Hnz1]].
         assert (Es : status_eqb (r_status s1) Optimal = false) by (rewrite Hst; reflexivity).
-        rewrite Es. exists s1. split; [reflexivity|]. right. split; [exact Hno|]. split; [exact Hst|exact Hnz1].
+        assert (En : Nat.eqb (r_nsolves s1) (r_nsolves s) = false).
+        { apply Nat.eqb_neq. intro Heq.
+          assert (Hs1 : s1 = add_info s (crit_info M c)).
+          { apply (perform_all_nsolves_eq M solve (expand M c) _ _ E1). exact Heq. }
+          rewrite Hs1 in Hst. cbn [add_info r_status] in Hst.
+          destruct (J_status _ _ _ HJ) as [[_ Hs]|[_ [Hs _]]]; congruence. }
+        rewrite Es, En. cbn [orb].
+        exists s1. split; [reflexivity|]. right. split; [exact Hno|]. split; [exact Hst|exact Hnz1].
   Qed.
 
   (* ---- the plain solve when no stage was performed --------------------------------------------- *)
@@ -512,8 +518,7 @@ Section StageInvariant.
 
   Lemma run_J : forall solve, milp_ok M solve ->
     exists s1, run_crits M solve (mkRS base [] (base_info o) NotSolved [] [] 0) (o_crits o) = Ok s1 /\
-      ((exists done G, J s1 done G /\ Refines (fun m => FeasM m) (map spec done) G /\
-          (stages_nonempty M o -> done = all_prims M o)) \/ Bad s1).
+      ((exists G, J s1 (all_prims M o) G /\ Refines (fun m => FeasM m) (map spec (all_prims M o)) G) \/ Bad s1).
   Proof.
     intros solve Hok.
     destruct (run_crits_J (o_crits o) solve _ [] (fun m => FeasM m) Hok (J_init (base_info o))
@@ -536,56 +541,42 @@ Section StageInvariant.
     intros solve out Hok Hrun. destruct (run_J solve Hok) as [s1 [E Hres]].
     unfold run in Hrun. rewrite Hbase in Hrun. cbn [bind] in Hrun. rewrite E in Hrun. cbn [bind] in Hrun.
     destruct (Nat.eqb (r_nsolves s1) 0) eqn:En; injection Hrun as <-; cbn [out_status].
-    - apply Nat.eqb_eq in En. destruct Hres as [[done [G [HJ _]]]|[_ [_ Hnz]]]; [|contradiction].
-      destruct (plain_solve solve 0%nat s1 done G Hok HJ) as [H1 [H2 _]]. split; assumption.
-    - apply Nat.eqb_neq in En. destruct Hres as [[done [G [HJ _]]]|[Hno [Hst _]]].
+    - apply Nat.eqb_eq in En. destruct Hres as [[G [HJ _]]|[_ [_ Hnz]]]; [|contradiction].
+      destruct (plain_solve solve 0%nat s1 _ G Hok HJ) as [H1 [H2 _]]. split; assumption.
+    - apply Nat.eqb_neq in En. destruct Hres as [[G [HJ _]]|[Hno [Hst _]]].
       + destruct (J_status _ _ _ HJ) as [[Hz _]|[_ [Hst HG]]]; [contradiction|].
         split; [intros _; exact Hst|]. intro Hno. exfalso. apply Hno. eexists. apply (J_sub _ _ _ HJ _ HG).
       + split; [intro Hf; contradiction|intros _; exact Hst].
   Qed.
 
   (* C03 / C04 *)
-  Theorem run_lex_optimal : forall solve out, milp_ok M solve -> stages_nonempty M o ->
+  Theorem run_lex_optimal : forall solve out, milp_ok M solve ->
     run M o solve = Ok out -> out_status out = Optimal ->
     LexOpt (Feas (o_pc o) (o_stab o) M) (map (prim_objective_spec M) (all_prims M o))
            (matching_of M (val_fun (out_vals out))).
   Proof.
-    intros solve out Hok Hne Hrun Hopt. destruct (run_J solve Hok) as [s1 [E Hres]].
+    intros solve out Hok Hrun Hopt. destruct (run_J solve Hok) as [s1 [E Hres]].
     unfold run in Hrun. rewrite Hbase in Hrun. cbn [bind] in Hrun. rewrite E in Hrun. cbn [bind] in Hrun.
-    assert (Hfin : forall done (G : matching -> Prop), Refines (fun m => FeasM m) (map spec done) G ->
-                   done = all_prims M o -> G (matching_of M (val_fun (out_vals out))) ->
+    assert (Hfin : forall (G : matching -> Prop), Refines (fun m => FeasM m) (map spec (all_prims M o)) G ->
+                   G (matching_of M (val_fun (out_vals out))) ->
                    LexOpt (Feas (o_pc o) (o_stab o) M) (map spec (all_prims M o))
                           (matching_of M (val_fun (out_vals out)))).
-    { intros done G Href -> HG. specialize (Href [] _ HG). rewrite app_nil_r in Href. exact Href. }
+    { intros G Href HG. specialize (Href [] _ HG). rewrite app_nil_r in Href. exact Href. }
     destruct (Nat.eqb (r_nsolves s1) 0) eqn:En; injection Hrun as <-; cbn [out_status out_vals] in *.
-    - apply Nat.eqb_eq in En. destruct Hres as [[done [G [HJ [Href Hall]]]]|[_ [_ Hnz]]]; [|contradiction].
-      destruct (plain_solve solve 0%nat s1 done G Hok HJ) as [_ [_ H3]].
-      apply (Hfin done G Href (Hall Hne)). now apply H3.
-    - apply Nat.eqb_neq in En. destruct Hres as [[done [G [HJ [Href Hall]]]]|[_ [Hst _]]]; [|congruence].
+    - apply Nat.eqb_eq in En. destruct Hres as [[G [HJ Href]]|[_ [_ Hnz]]]; [|contradiction].
+      destruct (plain_solve solve 0%nat s1 _ G Hok HJ) as [_ [_ H3]].
+      apply (Hfin G Href). now apply H3.
+    - apply Nat.eqb_neq in En. destruct Hres as [[G [HJ Href]]|[_ [Hst _]]]; [|congruence].
       destruct (J_status _ _ _ HJ) as [[Hz _]|[_ [_ HG]]]; [contradiction|].
-      apply (Hfin done G Href (Hall Hne) HG).
+      apply (Hfin G Href HG).
   Qed.
 
 End StageInvariant.
 
 (* ---- the criteria of an admissible option set all have a stage ------------------------------ *)
 
-Lemma admissible_stages_nonempty : forall M o, admissible M o = true -> 1 <= max_rank M -> stages_nonempty M o.
-Proof.
-  intros M o Ha Hmr c Hc. unfold admissible in Ha.
-  apply andb_true_iff in Ha. destruct Ha as [_ Ha]. rewrite forallb_forall in Ha. specialize (Ha c Hc).
-  destruct c as [cr args]. unfold expand. cbn [fst snd] in *.
-  destruct cr; cbv zeta in *; try discriminate.
-  - (* generous *)
-    apply andb_true_iff in Ha. destruct Ha as [H1 H2]. apply Z.leb_le in H1.
-    apply orb_true_iff in H2. destruct H2 as [H2|H2]; [apply Z.leb_le in H2|apply Z.eqb_eq in H2; lia].
-    intro E. apply (f_equal (@length prim)) in E. rewrite map_length, rev_length, seqZ_length in E.
-    cbn [length] in E. lia.
-  - (* greedy *)
-    apply Z.leb_le in Ha. replace (Z.max 1 (max_rank M)) with (max_rank M) in Ha by lia.
-    intro E. apply (f_equal (@length prim)) in E. rewrite map_length, seqZ_length in E.
-    cbn [length] in E. lia.
-Qed.
+(* (admissible_stages_nonempty removed: 'admissible' no longer restricts generous / greedy cut-offs, and the
+   optimality theorems no longer need every criterion to have a stage) *)
 
 (* ---- without -stab the two hypotheses on the base constraints are theorems -------------------- *)
 
@@ -638,19 +629,18 @@ Proof.
 Qed.
 
 Theorem run_lex_optimal_nostab : forall M o solve out, wf M = true -> admissible M o = true -> o_stab o = false ->
-  milp_ok M solve -> stages_nonempty M o -> run M o solve = Ok out -> out_status out = Optimal ->
+  milp_ok M solve -> run M o solve = Ok out -> out_status out = Optimal ->
   LexOpt (Feas (o_pc o) (o_stab o) M) (map (prim_objective_spec M) (all_prims M o))
          (matching_of M (val_fun (out_vals out))).
 Proof.
-  intros M o solve out Hwf Hadm Hs Hok Hne Hrun Hopt. destruct (base_constrs_nostab M o Hs) as [base Hb].
+  intros M o solve out Hwf Hadm Hs Hok Hrun Hopt. destruct (base_constrs_nostab M o Hs) as [base Hb].
   exact (run_lex_optimal M o base Hwf Hadm Hb (base_sound_nostab M o base Hwf Hs Hb)
-           (base_complete_nostab M o base Hwf Hs Hb) solve out Hok Hne Hrun Hopt).
+           (base_complete_nostab M o base Hwf Hs Hb) solve out Hok Hrun Hopt).
 Qed.
 
 Check run_no_crash.
 Check run_status.
 Check run_lex_optimal.
-Print Assumptions admissible_stages_nonempty.
 Print Assumptions run_no_crash.
 Print Assumptions run_status.
 Print Assumptions run_lex_optimal.
